@@ -160,7 +160,34 @@ def construct_failures(sym, ferm, indices, charge, stored, st=None):
                         fails.append((f"C16/random[{label}]/sectors", "random does not store exactly the valid sectors"))
                 except Exception as ex:
                     fails.append((f"C16/random[{label}]/raised-{type(ex).__name__}", f"{ex}"))
+    # the caller's mapping is input data: arrays built from it must not alias it (two arrays built from the same
+    # mapping stay equal to what the mapping describes after one of them is changed in place)
+    if blocks and not refuse_all(sym, ferm):
+        klass, skw = get_class(sym, ferm, "dyn")
+        for name, mk in (("init", lambda D: klass(indices=tuple(make_index(i) for i in indices), charge=charge, blocks=D, **skw, **fkw)),
+                         ("from_blocks", lambda D: klass.from_blocks(D, duals, charge=charge, **skw, **fkw))):
+            D = {s_: np.array(b) for s_, b in blocks.items()}
+            snap = {s_: np.array(b) for s_, b in D.items()}
+            try:
+                a1 = mk(D)
+                a2 = mk(D)
+                a1 *= 2.0
+                a1.blocks.pop(next(iter(a1.blocks)))
+                a1.conj(inplace=True)
+                if st is not None:
+                    st.transitions += 4
+                if set(D) != set(snap) or any(not exact_equal(D[k], snap[k]) for k in snap):
+                    fails.append((f"C16/{name}/aliases-caller-mapping", "in-place operations on the array changed the mapping it was built from"))
+                exp2 = exp if name == "init" else exp_fb
+                for kind, det in same_array(a2, exp2, name + "[second array]"):
+                    fails.append((f"C16/{name}/second-array-{kind}", det))
+            except Exception as ex:
+                fails.append((f"C16/{name}/alias-check-raised-{type(ex).__name__}", str(ex)))
     return fails
+
+
+def refuse_all(sym, ferm):
+    return False
 
 
 # --------------------------------------------------------------------------- #
